@@ -368,8 +368,7 @@ def config_case(args):
     return out
 
 
-def run_configs(ctx):
-    V = [V1, V2]
+def _config_tasks():
     tasks = []
     clients = [(V1, [V1]), (V2, [V2]), (V1, [V1, V2]), (V1, [V2, V1]), (V2, [V1, V2]), (V2, [V2, V1])]
     servers = [[V1], [V2], [V1, V2], [V2, V1]]
@@ -387,6 +386,11 @@ def run_configs(ctx):
     for ca in (["a"], ["b"], ["a", "b"]):
         for sa in (["a"], ["b"], ["b", "a"]):
             tasks.append(("alpn c=%s s=%s" % (ca, sa), {"alpn": ca, "s_alpn": sa}, None, None))
+    return tasks
+
+
+def run_configs(ctx):
+    tasks = _config_tasks()
     res = core.pmap(config_case, tasks, chunksize=4)
     outcomes = set()
     for r in res:
@@ -395,6 +399,159 @@ def run_configs(ctx):
             ctx.violation(r["viol"][0], r["viol"][1], {"part": "config", "label": r["label"]})
     ctx.part("genuine_exchange_config_matrix", evaluations=len(res), states=len(res), transitions=len(res) * 10,
              distinct_nontrivial=len(outcomes))
+
+
+def loss_case(args):
+    """A genuine bulk exchange under scripted loss episodes (everything sent inside a window is lost):
+    all input is genuine peer output - ACK frames that declare losses, PTO probes - so nothing may raise."""
+    from vlib import explore
+
+    label, cfg = args
+    out = {"label": label, "viol": None, "outcome": None, "cfg": cfg}
+    script = {"c": [{"op": "w", "sid": 0, "n": 30000, "fin": True, "g": "hs"}],
+              "s": [{"op": "w", "sid": 1, "n": 30000, "fin": True, "g": "hs"}]}
+    w = netsim.NetSim(cfg, script, explore.Chooser([]), max_steps=4000, horizon=60.0)
+    try:
+        out["outcome"] = w.run(lambda ww: ww.ep["s"].rx_fin.get(0) and ww.ep["c"].rx_fin.get(1))
+    except core.HarnessError:
+        raise
+    except Exception as e:  # noqa
+        entry, inner = classify(e)
+        if inner is None:
+            raise
+        out["viol"] = ({"monitor": "api_exception", "exc": type(e).__name__, "where": inner, "entry": entry,
+                        "input": "genuine_peer_flight_under_loss"},
+                       "%s: %s in %s (API entry %s) during a genuine bulk exchange with loss episodes, configuration %s"
+                       % (type(e).__name__, e, inner, entry, label))
+    out["lost"] = sum(1 for st in w.steps if st[0] == "send_lost") if hasattr(w, "steps") else 0
+    return out
+
+
+def run_loss(ctx):
+    tasks = []
+    starts = (0.05, 0.075, 0.1) if ctx.tier == "quick" else (0.05, 0.06, 0.075, 0.09, 0.1, 0.13)
+    for cc in ("reno", "cubic"):
+        for version in (V1,) if ctx.tier == "quick" else (V1, V2):
+            for a in starts:
+                for dur in (0.03, 0.3):
+                    for gap in (0.1, 0.6, 2.0):
+                        for n in (2, 3):
+                            wins, t = [], a
+                            for _ in range(n):
+                                wins.append((round(t, 3), round(t + dur, 3)))
+                                t += dur + gap
+                            tasks.append(("cc=%s v=%x blackouts=%s" % (cc, version, wins),
+                                          {"cc": cc, "version": version, "blackouts": wins, "idle": 30.0}))
+    res = core.pmap(loss_case, tasks, chunksize=2)
+    outcomes = {}
+    for r in res:
+        outcomes[r["outcome"]] = outcomes.get(r["outcome"], 0) + 1
+        if r["viol"]:
+            ctx.violation(r["viol"][0], r["viol"][1], {"part": "loss", "label": r["label"], "cfg": r["cfg"]})
+    if not ctx.violations and outcomes.get("done", 0) < len(tasks) // 2:
+        raise core.HarnessError("loss part: most exchanges do not complete: %r" % outcomes)
+    ctx.part("genuine_bulk_under_loss_episodes", evaluations=len(res), states=len(res), transitions=len(res) * 100,
+             distinct_nontrivial=len(outcomes), outcomes=outcomes)
+
+
+# ------------------------------------------------------------------ ACK / loss episodes
+EPISODE_MOVES = ("LOSS", "ACKALL", "PTO")
+
+
+def episodes_case(args):
+    """One real endpoint with a large write pending (always congestion-limited); the key-holding peer
+    acknowledges in blocks: LOSS = after one second only the newest outstanding packet is acknowledged
+    (everything older is declared lost - a new loss episode each time), ACKALL, PTO = the endpoint's timer
+    fires.  Every input is a well-formed ACK frame a real peer could send: nothing may raise."""
+    role, cc, blocks = args
+    out = {"viol": None, "steps": 0, "role": role, "cc": cc, "blocks": blocks, "cwnd_min": None}
+    bot = peerbot.PeerBot(role, cut="connected", cfg={"cc": cc})
+    sid = 0 if role == "client" else 1
+    step = "send_stream_data"
+    def serve_pacing():
+        # a caller honours get_timer(): pacing deadlines (fractions of a millisecond) are served at once
+        conn = bot.E.conn
+        for _ in range(64):
+            if bot.E.terminated is not None or conn._pacing_at is None:
+                break
+            t = conn.get_timer()
+            if t is None or t > conn._pacing_at:
+                break
+            bot.timer()
+
+    try:
+        bot.app("send_stream_data", lambda c: c.send_stream_data(sid, bytes(400000), end_stream=True))
+        serve_pacing()
+        for mv, rep in blocks:
+            for _ in range(rep):
+                step = mv
+                out["steps"] += 1
+                if bot.E.conn._state.name != "CONNECTED":
+                    return out
+                if mv == "LOSS":
+                    pns = sorted(x.pn for x in bot.outstanding if x.epoch == "A")
+                    if len(pns) < 2:
+                        continue
+                    bot.advance(1.0)
+                    bot.ack([pns[-1]])
+                    # the harness decided: the older packets are lost for good
+                    bot.outstanding = [x for x in bot.outstanding if not (x.epoch == "A" and x.pn < pns[-1])]
+                    # packets inside the reordering window are declared lost by the loss timer a little later
+                    for _ in range(3):
+                        t = bot.E.conn.get_timer()
+                        if t is None or t == bot.E.conn._close_at or t - bot.w.now > 0.25:
+                            break
+                        bot.timer()
+                        serve_pacing()
+                elif mv == "ACKALL":
+                    bot.advance(0.01)      # a round trip passes (packets sent from now on are past the recovery start)
+                    bot.ack()
+                else:
+                    t = bot.E.conn.get_timer()
+                    if t is None or t == bot.E.conn._close_at:
+                        continue
+                    bot.timer()
+                serve_pacing()
+                cw = bot.E.conn._loss._cc.congestion_window
+                out["cwnd_min"] = cw if out["cwnd_min"] is None else min(out["cwnd_min"], cw)
+    except core.HarnessError:
+        raise
+    except Exception as e:  # noqa
+        entry, inner = classify(e)
+        if inner is None:
+            raise
+        out["viol"] = ({"monitor": "api_exception", "exc": type(e).__name__, "where": inner, "entry": entry,
+                        "role": role, "input": "ack_loss_episodes"},
+                       "%s: %s in %s (API entry %s) at step %d (%s) of the acknowledgement pattern %s, %s endpoint, "
+                       "congestion control %s" % (type(e).__name__, e, inner, entry, out["steps"], step,
+                                                  "".join("%s^%d " % b for b in blocks).strip(), role, cc))
+    return out
+
+
+def run_episodes(ctx):
+    reps = (1, 2, 4, 8)
+    one = [((m, r),) for m in EPISODE_MOVES for r in reps]
+    two = [a + b for a in one for b in one if a[0][0] != b[0][0]]
+    three = [a + b for a in two for b in one if a[-1][0] != b[0][0]]
+    seqs = one + two + (three if ctx.tier != "quick" else [x for i, x in enumerate(three) if i % 8 == ctx.seed % 8])
+    tasks = [(role, cc, blocks) for blocks in seqs for cc in ("cubic", "reno")
+             for role in (("server",) if ctx.tier == "quick" else ("server", "client"))]
+    res = core.pmap(episodes_case, tasks, chunksize=8)
+    reported = set()
+    for r in sorted(res, key=lambda r: sum(b[1] for b in r["blocks"])):
+        if r["viol"]:
+            k = core.stable_hash(r["viol"][0])
+            if k in reported:
+                continue
+            reported.add(k)
+            ctx.violation(r["viol"][0], r["viol"][1], {"part": "episodes", "role": r["role"], "cc": r["cc"],
+                                                       "blocks": [list(b) for b in r["blocks"]]})
+    mins = [r["cwnd_min"] for r in res if r["cwnd_min"] is not None]
+    if not mins or min(mins) > 3000:
+        raise core.HarnessError("episodes: the congestion window never reached its minimum (%r)" % (min(mins) if mins else None))
+    ctx.part("ack_loss_episodes", evaluations=sum(r["steps"] for r in res), states=len(res),
+             transitions=sum(r["steps"] for r in res), patterns=len(seqs), smallest_congestion_window=min(mins),
+             distinct_nontrivial=len(set(mins)))
 
 
 def run_budget(ctx):
@@ -582,6 +739,8 @@ def run(ctx):
     run_budget(ctx)
     run_gaps(ctx)
     run_configs(ctx)
+    run_loss(ctx)
+    run_episodes(ctx)
     # hostile TLS messages with valid MACs from a key-holding QUIC-level adversary
     from checks import c05_tls
 
@@ -619,6 +778,29 @@ def replay(ctx, obj):
             print("VIOLATION property=C05 replay=(replayed): %s" % r["viol"][1])
             return 1
         return 0
+    if rp.get("part") == "episodes":
+        r = episodes_case((rp["role"], rp["cc"], [tuple(b) for b in rp["blocks"]]))
+        print({k: v for k, v in r.items() if k != "viol"})
+        if r["viol"]:
+            print("VIOLATION property=C05 replay=(replayed): %s" % r["viol"][1])
+            return 1
+        return 0
+    if rp.get("part") == "loss":
+        cfg = dict(rp["cfg"], blackouts=[tuple(x) for x in rp["cfg"]["blackouts"]])
+        r = loss_case((rp["label"], cfg))
+        print({k: v for k, v in r.items() if k != "viol"})
+        if r["viol"]:
+            print("VIOLATION property=C05 replay=(replayed): %s" % r["viol"][1])
+            return 1
+        return 0
+    if rp.get("part") == "config":
+        print("re-running the configuration matrix")
+        bad = 0
+        for r in core.pmap(config_case, _config_tasks(), chunksize=4):
+            if r["viol"] and r["label"] == rp["label"]:
+                print("VIOLATION property=C05 replay=(replayed): %s" % r["viol"][1])
+                bad = 1
+        return bad
     if rp.get("part") == "tls":
         from checks import c05_tls
 
